@@ -254,9 +254,13 @@ class Network(Cached):
         """
         Return a copy of the network.
         """
-        return Network(adjacency=self.sp_A, directed=self.directed,
-                       node_weights=self.node_weights,
-                       silence_level=self.silence_level)
+        new = Network(adjacency=self.sp_A, directed=self.directed,
+                      node_weights=self.node_weights,
+                      silence_level=self.silence_level)
+        #  a copy carries the link attributes as well
+        for name in self.graph.es.attributes():
+            new.set_link_attribute(name, self.link_attribute(name))
+        return new
 
     def undirected_copy(self):
         """
